@@ -25,6 +25,7 @@ import (
 	"github.com/keep-network/keep-core/pkg/chain"
 	"github.com/keep-network/keep-core/pkg/chain/local_v1"
 	"github.com/keep-network/keep-core/pkg/internal/tecdsatest"
+	"github.com/keep-network/keep-core/pkg/net"
 	"github.com/keep-network/keep-core/pkg/net/local"
 	"github.com/keep-network/keep-core/pkg/operator"
 	"github.com/keep-network/keep-core/pkg/protocol/group"
@@ -58,6 +59,12 @@ func c08xShares(operating []group.MemberIndex) (map[group.MemberIndex]*tecdsa.Pr
 // c08xSign registers, persists, loads and signs; returns the signature or the
 // executor's error.
 func c08xSign(t *rapid.T, excluded map[group.MemberIndex]bool, message *big.Int, attempts uint) (*tecdsa.Signature, *ecdsa.PublicKey, error) {
+	return c08xSignWith(t, excluded, message, attempts, nil)
+}
+
+// c08xSignWith is c08xSign with the executor's broadcast channel passed through
+// wrap (nil: the channel as it is) before signing starts.
+func c08xSignWith(t *rapid.T, excluded map[group.MemberIndex]bool, message *big.Int, attempts uint, wrap func(net.BroadcastChannel) net.BroadcastChannel) (*tecdsa.Signature, *ecdsa.PublicKey, error) {
 	// quorum 3 so that up to two key generation members may be excluded
 	params := &GroupParameters{GroupSize: 5, GroupQuorum: 3, HonestThreshold: 3}
 	opPriv, opPub, err := operator.GenerateKeyPair(local_v1.DefaultCurve)
@@ -123,6 +130,9 @@ func c08xSign(t *rapid.T, excluded map[group.MemberIndex]bool, message *big.Int,
 		t.Fatalf("node loaded %d signers, %d were registered", len(executor.signers), len(operating))
 	}
 	executor.signingAttemptsLimit = attempts
+	if wrap != nil {
+		executor.broadcastChannel = wrap(executor.broadcastChannel)
+	}
 	ctx, cancel := context.WithCancel(context.Background())
 	defer cancel()
 	sig, _, _, err := executor.sign(ctx, message, 0)
